@@ -29,9 +29,10 @@ def profile_fn(kind, width):
                 voigt=lambda: f_profiles.voigt_f_profile(width, width))[kind]()
 
 
-def job(T, Fc, asc, kind, smear, geom, tier, dsign, dfsign=1):
+def job(T, Fc, asc, kind, smear, geom, tier, dsign, dfsign=1, reach=2):
     """dsign: -1 / 0 / +1 restricts the drift sign (splits the work)
-    dfsign=-1: the frame is constructed with a NEGATIVE df (filterbank style; accepted and stored as |df|)"""
+    dfsign=-1: the frame is constructed with a NEGATIVE df (filterbank style; accepted and stored as |df|)
+    reach: how many channels outside the band the signal may start (a fast signal starting far outside sweeps in)"""
     g = inject.GEOMS[geom]
     if dfsign < 0:
         g = dict(g, df_arg=-g['df'])
@@ -40,7 +41,7 @@ def job(T, Fc, asc, kind, smear, geom, tier, dsign, dfsign=1):
     f0, d, lvl, w = (Sym(z3.Real(n)) for n in ('f_start', 'drift', 'level', 'width'))
     fmin = fch1 if asc else fch1 - (Fc - 1) * df
     fmax = fmin + (Fc - 1) * df
-    pre = [w.t >= RV(0.05 * df), w.t <= RV(10 * df), f0.t >= RV(fmin - 2 * df), f0.t <= RV(fmax + 2 * df),
+    pre = [w.t >= RV(0.05 * df), w.t <= RV(10 * df), f0.t >= RV(fmin - reach * df), f0.t <= RV(fmax + reach * df),
            d.t >= RV(-4 * unit), d.t <= RV(4 * unit)]
     if dsign < 0:
         pre.append(d.t < 0)
@@ -71,7 +72,7 @@ def job(T, Fc, asc, kind, smear, geom, tier, dsign, dfsign=1):
     with frame_patches():
         leaves = core.explore(run, pre, cap=3000)
     texp = time.time() - t0
-    tag = f"C13:{(T, Fc, asc, kind, smear, geom, dsign)}" + (':negative-df' if dfsign < 0 else '')
+    tag = f"C13:{(T, Fc, asc, kind, smear, geom, dsign)}" + (':negative-df' if dfsign < 0 else '') + (f':reach{reach}' if reach != 2 else '')
     conds = []
     ncex = 0
     for li, leaf in enumerate(leaves):
@@ -382,6 +383,10 @@ def main():
     for kind in ('box', 'gaussian'):
         for dsign in (-1, 1):
             jobs.append(('job', (2, 6, False, kind, True, 'g1', ck.tier, dsign, -1)))
+    # a band narrower than the total drift, the signal starting well outside it and sweeping in
+    for smear in (False, True):
+        for dsign in (-1, 1):
+            jobs.append(('job', (3, 3, False, 'box', smear, 'g1', ck.tier, dsign, 1, 8)))
     if not ck.thorough:
         # a single integration: every quantity with a factor (tchans - 1) vanishes
         for kind in ('box', 'gaussian'):
